@@ -115,6 +115,7 @@ class Impl:
         it.current_node = self.mparser.BaseNode(-1, -1, 'sentinel')
         self.messages = []
         self.calls = []
+        self.saw_live_alias = False
 
     def reset_tree(self, files: T.Dict[str, str]) -> None:
         """a fresh source tree: the other build files (directory relative to the source root -> text) are
@@ -201,6 +202,26 @@ class Impl:
         if isinstance(v, (bool, int, str)):
             return v
         return ('object', type(v).__name__, id(v))
+
+    def live_alias(self) -> bool:
+        """do two variables (or a variable and an element of another) currently refer to the SAME Python list/dict
+        object?  Only then can an in-place update of one become visible through the other"""
+        seen: T.Dict[int, str] = {}
+
+        def walk(v: T.Any, owner: str, depth: int) -> bool:
+            if isinstance(v, (list, dict)):
+                if id(v) in seen and seen[id(v)] != owner:
+                    return True
+                seen[id(v)] = owner
+                if depth < 3:
+                    for x in (v.values() if isinstance(v, dict) else v):
+                        if walk(x, owner, depth + 1):
+                            return True
+            return False
+        for k, h in self.interp.variables.items():
+            if walk(self.unhold(h), k, 0):
+                return True
+        return False
 
     def snapshot(self) -> dict:
         """structural copy of the unheld variable table (for the immutability oracle)"""
